@@ -5,13 +5,17 @@ use crate::xotdata::Xot;
 use crate::NamespaceId;
 
 // used to determine whether something is a HTML 5 element
-pub(crate) const XHTML_NS: &str = "https://www.w3.org/1999/xhtml";
+// The XHTML namespace is http://www.w3.org/1999/xhtml. Earlier versions only
+// knew the (wrong) https spelling; that one keeps being recognized.
+pub(crate) const XHTML_NS: &str = "http://www.w3.org/1999/xhtml";
+const XHTML_NS_HTTPS: &str = "https://www.w3.org/1999/xhtml";
 const MATHML_NS: &str = "http://www.w3.org/1998/Math/MathML";
 const SVG_NS: &str = "http://www.w3.org/2000/svg";
 
 #[derive(Debug)]
 pub(crate) struct Html5Elements {
     xhtml_namespace_id: NamespaceId,
+    xhtml_https_namespace_id: NamespaceId,
     mathml_namespace_id: NamespaceId,
     svg_namespace_id: NamespaceId,
     pub(crate) html5_names: HtmlNames,
@@ -24,12 +28,18 @@ pub(crate) struct Html5Elements {
 #[derive(Debug)]
 pub(crate) struct HtmlNames {
     xhtml_namespace_id: NamespaceId,
+    xhtml_https_namespace_id: NamespaceId,
     ids: HashSet<NameId>,
     names: HashSet<String>,
 }
 
 impl HtmlNames {
-    fn new(xot: &mut Xot, xhtml_namespace_id: NamespaceId, names: &[&str]) -> Self {
+    fn new(
+        xot: &mut Xot,
+        xhtml_namespace_id: NamespaceId,
+        xhtml_https_namespace_id: NamespaceId,
+        names: &[&str],
+    ) -> Self {
         let mut ids = HashSet::new();
         for name in names {
             // lowercase names, no namespace
@@ -40,9 +50,16 @@ impl HtmlNames {
             ids.insert(xot.add_name_ns(name, xhtml_namespace_id));
             // uppercase names, XHTML namespace
             ids.insert(xot.add_name_ns(&name.to_ascii_uppercase(), xhtml_namespace_id));
+            // the same for the https spelling of the XHTML namespace
+            ids.insert(xot.add_name_ns(name, xhtml_https_namespace_id));
+            ids.insert(xot.add_name_ns(
+                &name.to_ascii_uppercase(),
+                xhtml_https_namespace_id,
+            ));
         }
         Self {
             xhtml_namespace_id,
+            xhtml_https_namespace_id,
             ids,
             names: names.iter().map(|name| name.to_string()).collect(),
         }
@@ -73,6 +90,7 @@ impl HtmlNames {
 impl Html5Elements {
     pub(crate) fn new(xot: &mut Xot) -> Self {
         let xhtml_namespace_id = xot.add_namespace(XHTML_NS);
+        let xhtml_https_namespace_id = xot.add_namespace(XHTML_NS_HTTPS);
         let mathml_namespace_id = xot.add_namespace(MATHML_NS);
         let svg_namespace_id = xot.add_namespace(SVG_NS);
         let html5_names = [
@@ -187,7 +205,7 @@ impl Html5Elements {
             "video",
             "wbr",
         ];
-        let html5_names = HtmlNames::new(xot, xhtml_namespace_id, &html5_names);
+        let html5_names = HtmlNames::new(xot, xhtml_namespace_id, xhtml_https_namespace_id, &html5_names);
 
         let void_names = [
             "area", "base", "br", "col", "embed", "hr", "img", "input", "keygen", "link", "meta",
@@ -196,7 +214,7 @@ impl Html5Elements {
             "basefont", "frame", "isindex",
         ];
 
-        let void_names = HtmlNames::new(xot, xhtml_namespace_id, &void_names);
+        let void_names = HtmlNames::new(xot, xhtml_namespace_id, xhtml_https_namespace_id, &void_names);
 
         let phrasing_content_names = [
             "a", "abbr", "area", "audio", "b", "bdi", "bdo", "br", "button", "canvas", "cite",
@@ -206,16 +224,17 @@ impl Html5Elements {
             "span", "strong", "sub", "sup", "svg", "textarea", "time", "u", "var", "video", "wbr",
         ];
         let phrasing_content_names =
-            HtmlNames::new(xot, xhtml_namespace_id, &phrasing_content_names);
+            HtmlNames::new(xot, xhtml_namespace_id, xhtml_https_namespace_id, &phrasing_content_names);
 
         let formatted_names = ["pre", "script", "style", "title", "textarea"];
-        let formatted_names = HtmlNames::new(xot, xhtml_namespace_id, &formatted_names);
+        let formatted_names = HtmlNames::new(xot, xhtml_namespace_id, xhtml_https_namespace_id, &formatted_names);
 
         let no_escape_names = ["script", "style"];
-        let no_escape_names = HtmlNames::new(xot, xhtml_namespace_id, &no_escape_names);
+        let no_escape_names = HtmlNames::new(xot, xhtml_namespace_id, xhtml_https_namespace_id, &no_escape_names);
         Self {
             html5_names,
             xhtml_namespace_id,
+            xhtml_https_namespace_id,
             mathml_namespace_id,
             svg_namespace_id,
             void_names,
@@ -240,11 +259,14 @@ impl Html5Elements {
 
     pub(crate) fn must_be_serialized_unprefixed(&self, namespace: NamespaceId) -> bool {
         namespace == self.xhtml_namespace_id
+            || namespace == self.xhtml_https_namespace_id
             || namespace == self.mathml_namespace_id
             || namespace == self.svg_namespace_id
     }
 
     pub(crate) fn is_html_namespace(&self, xot: &Xot, namespace_id: NamespaceId) -> bool {
-        namespace_id == self.xhtml_namespace_id || namespace_id == xot.no_namespace()
+        namespace_id == self.xhtml_namespace_id
+            || namespace_id == self.xhtml_https_namespace_id
+            || namespace_id == xot.no_namespace()
     }
 }
